@@ -3,6 +3,7 @@ C06 property theorems. Only statements of the property + non-vacuity examples li
 helper lemmas are in Lemmas.lean.
 -/
 import BV.C06.Mono
+import BV.C06.NoFuel
 import BV.Generated.C06
 namespace BV.C06
 
@@ -60,6 +61,25 @@ fuel `script.length` used by `evalScript` is never the reason for a result. -/
 theorem eval_total (c : Ctx) (script : Bytes) (st : St) (k : Nat) :
     evalLoop c (script.length + k) script st = evalLoop c script.length script st :=
   Lemmas.evalLoop_fuel_irrelevant c script st k
+
+/-- … and with that fuel the evaluator never answers with its out-of-fuel marker `FUEL` (the only outcome of
+the model that is not a Bitcoin script result), for any checker that does not produce the marker itself.
+Together with the fact that every function of the model is total, there is no `panic`-like outcome. -/
+theorem eval_total_no_fuel_error {c : Ctx} (hc : Lemmas.ChkNoFuel c.chk) (script : Bytes) (st : St) :
+    evalLoop c script.length script st ≠ .error .FUEL :=
+  Lemmas.evalLoop_noFuel hc script.length script st (Nat.le_refl _)
+
+example : Lemmas.ChkNoFuel
+    ⟨fun _ _ _ _ => .ok false, fun _ _ _ _ => .ok (), fun _ => false, fun _ => false, fun _ _ _ _ => .ok false⟩ :=
+  ⟨fun _ _ _ _ => Lemmas.NoFuel.ok _, fun _ _ _ _ => Lemmas.NoFuel.ok _, fun _ _ _ _ => Lemmas.NoFuel.ok _⟩
+
+/-- The checker the driver uses for every protocol line (signature hash computed in Lean, curve equations
+from the line's oracle table) satisfies that hypothesis, so the driver's `VerifyScript` on an input never
+ends in `FUEL`. -/
+theorem eval_total_driver (sp : Spend) (fl : Flags) (sv : SigVer) (xd : ExecData) (script : Bytes) (st : St) :
+    evalLoop { flags := fl, sv := sv, chk := sp.checker, xd := xd } script.length script st ≠ .error .FUEL :=
+  Lemmas.evalLoop_noFuel (c := { flags := fl, sv := sv, chk := sp.checker, xd := xd })
+    (Lemmas.spend_checker_noFuel sp) script.length script st (Nat.le_refl _)
 
 /-! ### bounds -/
 
